@@ -6,12 +6,85 @@ spec fn matrix_walk(g: AdjacencyMatrix, w: Seq<usize>) -> bool {
     w.len() >= 2 && forall|i: int| 0 <= i < w.len() - 1 ==> #[trigger] g.has(w[i] as int, w[i + 1] as int)
 }
 
+/// the item sequence of `walk.iter().zip(walk.iter().skip(1))`: the consecutive pairs of the walk
+proof fn lemma_walk_pairs(w: Seq<usize>)
+    requires w.len() > 1,
+    ensures ({
+        let a = w.as_ref();
+        let z = a.zip_truncate(a.skip(1));
+        &&& z.len() == w.len() - 1
+        &&& forall|i: int| 0 <= i < w.len() - 1 ==> *(#[trigger] z[i]).0 == w[i] && *z[i].1 == w[i + 1]
+    })
+{
+}
+
+/// the out-neighbours of u among the vertices below k, ascending: the defining value of `out_neighbors` (k = order)
+spec fn row_below(g: AdjacencyMatrix, u: int, k: int) -> Seq<usize>
+    decreases k
+{
+    if k <= 0 { Seq::empty() }
+    else if g.has(u, k - 1) { row_below(g, u, k - 1).push((k - 1) as usize) }
+    else { row_below(g, u, k - 1) }
+}
+
+/// `row_below` is exactly the neighbours below k, strictly ascending (hence no repeats)
+proof fn lemma_row_below(g: AdjacencyMatrix, u: int, k: int)
+    requires 0 <= k <= usize::MAX + 1,
+    ensures
+        forall|i: int| 0 <= i < row_below(g, u, k).len() ==> (#[trigger] row_below(g, u, k)[i]) < k && g.has(u, row_below(g, u, k)[i] as int),
+        forall|i: int, j: int| 0 <= i < j < row_below(g, u, k).len() ==> row_below(g, u, k)[i] < row_below(g, u, k)[j],
+        forall|v: int| 0 <= v < k && g.has(u, v) ==> row_below(g, u, k).contains(v as usize),
+        row_below(g, u, k).no_duplicates(),
+    decreases k
+{
+    if k > 0 {
+        lemma_row_below(g, u, k - 1);
+        let p = row_below(g, u, k - 1);
+        let s = row_below(g, u, k);
+        assert forall|v: int| 0 <= v < k && g.has(u, v) implies s.contains(v as usize) by {
+            if v < k - 1 {
+                assert(p.contains(v as usize));
+                let i = choose|i: int| 0 <= i < p.len() && p[i] == v as usize;
+                assert(s[i] == v as usize);
+            } else {
+                assert(s[s.len() - 1] == v as usize);
+            }
+        }
+    }
+}
+
+/// the vertex sequence 0, 1, .., n-1 (the items of `vertices()`)
+spec fn vseq(n: nat) -> Seq<usize> { Seq::new(n, |i: int| i as usize) }
+
+/// trigger tag: names the pair (g, u) for `lemma_filter_row`
+spec fn nb_tag(g: AdjacencyMatrix, u: int) -> bool { true }
+
+/// vstd's model of `Filter`: the items are `filter_index` of a prefix of the source; over the vertex range with a
+/// predicate that decides `has(u, .)` this is `row_below`.  Broadcast because the filter iterator is the tail
+/// expression of `out_neighbors` and cannot be named in a hint.
+broadcast proof fn lemma_filter_row(g: AdjacencyMatrix, u: int, n: int, pred: spec_fn(int) -> bool)
+    requires
+        0 <= n <= g.order,
+        forall|j: int| 0 <= j < n ==> pred(j) == g.has(u, j),
+    ensures
+        #![trigger vseq(g.order as nat).take(n).filter_index(pred), nb_tag(g, u)]
+        vseq(g.order as nat).take(n).filter_index(pred) == row_below(g, u, n),
+    decreases n
+{
+    let rem = vseq(g.order as nat);
+    if n > 0 {
+        lemma_filter_row(g, u, n - 1, pred);
+        assert(rem.take(n).drop_last() =~= rem.take(n - 1));
+        reveal_with_fuel(Seq::filter_index, 2);
+    }
+}
+
 impl AdjacencyMatrix {
     /*@fn impl=AdjacencyMatrix trait=Vertices name=vertices
     ensures
         r.obeys_prophetic_iter_laws(),
         r.decrease() is Some,
-        r.remaining() == Seq::new(self.order as nat, |i: int| i as usize),
+        r.remaining() == vseq(self.order as nat),
     @*/
 
     /*@fn impl=AdjacencyMatrix trait=HasWalk name=has_walk
@@ -22,6 +95,17 @@ impl AdjacencyMatrix {
     @closure 1 |p: (&usize, &usize)| -> (b: bool)
     ensures
         b == self.has(*p.0 as int, *p.1 as int),
+    @fn_start
+        broadcast use vstd::std_specs::iter::group_iter_axioms;
+        proof {
+            if walk@.len() > 1 {
+                lemma_walk_pairs(walk@);
+                let a = walk@.as_ref();
+                let z = a.zip_truncate(a.skip(1));
+                assert forall|i: int| 0 <= i < walk@.len() - 1 implies
+                    #[trigger] self.has(walk@[i] as int, walk@[i + 1] as int) == self.has(*z[i].0 as int, *z[i].1 as int) by {}
+            }
+        }
     @*/
 
     /*@fn impl=AdjacencyMatrix trait=Outdegree name=is_sink
@@ -33,6 +117,12 @@ impl AdjacencyMatrix {
     @closure 1 |v: usize| -> (b: bool)
     ensures
         b == !self.has(u as int, v as int),
+    @fn_start
+        proof {
+            // name the elements of the vertex range so that `Iterator::all`'s contract is instantiated for every b in V
+            let rem = vseq(self.order as nat);
+            assert forall|b: int| 0 <= b < self.order implies (#[trigger] self.has(u as int, b)) == self.has(u as int, rem[b] as int) by {}
+        }
     @*/
 
     /*@fn impl=AdjacencyMatrix trait=Indegree name=is_source
@@ -43,6 +133,11 @@ impl AdjacencyMatrix {
     @closure 1 |u: usize| -> (b: bool)
     ensures
         b == !self.has(u as int, v as int),
+    @fn_start
+        proof {
+            let rem = vseq(self.order as nat);
+            assert forall|a: int| 0 <= a < self.order implies (#[trigger] self.has(a, v as int)) == self.has(rem[a] as int, v as int) by {}
+        }
     @*/
 
     /*@fn impl=AdjacencyMatrix trait=IsSimple name=is_simple
@@ -54,5 +149,23 @@ impl AdjacencyMatrix {
     @closure 1 |u: usize| -> (b: bool)
     ensures
         b == !self.has(u as int, u as int),
+    @*/
+
+    /*@fn impl=AdjacencyMatrix trait=OutNeighbors name=out_neighbors
+    requires
+        self.wf(),
+    ensures
+        u < self.order,
+        r.obeys_prophetic_iter_laws(),
+        r.decrease() is Some,
+        exists|k: int| 0 <= k <= self.order && r.remaining() == #[trigger] row_below(*self, u as int, k),
+        r.will_return_none() ==> r.remaining() == row_below(*self, u as int, self.order as int),
+    @closure 1 |v__r: &usize| -> (b: bool)
+    ensures
+        b == self.has(u as int, *v__r as int),
+    @fn_start
+        broadcast use vstd::std_specs::iter::group_iter_axioms;
+        broadcast use lemma_filter_row;
+        proof { assert(nb_tag(*self, u as int)); }
     @*/
 }
